@@ -91,6 +91,16 @@ pub fn ref_cases(tier: Tier) -> Vec<CaseSpec> {
     v
 }
 
+/// Reference-judged programs used by C01 only (added after the C15 known cases were last harvested:
+/// C15 enumerates rewrite sites over `ref_cases`, and its lists are tied to that set).
+pub fn ref_cases_c01(tier: Tier) -> Vec<CaseSpec> {
+    let mut v = ref_cases(tier);
+    for c in gen4::f2_elseflags().into_iter().chain(gen4::f0_pinned_ref()) {
+        v.push(CaseSpec::Full(Box::new(c)));
+    }
+    v
+}
+
 /// Everything that compiles and can be executed, including programs with explicit hardware
 /// accesses, inline assembly, inline subsets, large bodies and non-default memory classes.
 pub fn exec_cases(tier: Tier) -> Vec<CaseSpec> {
@@ -140,7 +150,7 @@ pub fn exec_cases(tier: Tier) -> Vec<CaseSpec> {
     for c in gen3::f1_sext() {
         v.push(CaseSpec::Full(Box::new(c)));
     }
-    for c in gen4::f2_callflags().into_iter().chain(gen4::f1_condval()).chain(gen4::f2_regflags()).chain(gen4::f11_directed()) {
+    for c in gen4::f2_callflags().into_iter().chain(gen4::f1_condval()).chain(gen4::f2_regflags()).chain(gen4::f2_elseflags()).chain(gen4::f11_directed()).chain(gen4::f0_pinned()) {
         v.push(CaseSpec::Full(Box::new(c)));
     }
     for (c, _names, _mask) in gen2::f3(tier, false) {
